@@ -58,6 +58,63 @@ theorem fenwick_refines_zeros (n : Nat) (ops : List FOp)
     fenRun (List.replicate n 0) ops = arrRun (List.replicate n 0) ops :=
   run_refines (finv_zeros n) ops (by simpa using hops)
 
+/-! ### canonical representation: the tree is a function of the reference array -/
+
+/-- Two trees satisfying the representation invariant for the same array are the same list. -/
+theorem finv_canonical {t t2 a : List Int} (h1 : FInv t a) (h2 : FInv t2 a) : t = t2 := by
+  apply List.ext_getElem (by rw [h1.1, h2.1])
+  intro j hj hj2
+  have hja : j < a.length := by have := h1.1; omega
+  have e1 := h1.2 j hja
+  have e2 := h2.2 j hja
+  simp only [List.getD, List.getElem?_eq_getElem hj, List.getElem?_eq_getElem hj2,
+    Option.getD_some] at e1 e2
+  rw [e1, e2]
+
+/-- point updates applied to the tree / to the plain array -/
+def fenUpdates (t : List Int) (ups : List (Nat × Int)) : List Int :=
+  ups.foldl (fun t u => fenUpdate t u.1 u.2) t
+def arrUpdates (a : List Int) (ups : List (Nat × Int)) : List Int :=
+  ups.foldl (fun a u => arrUpdate a u.1 u.2) a
+
+theorem arrUpdates_length (a : List Int) (ups : List (Nat × Int)) :
+    (arrUpdates a ups).length = a.length := by
+  induction ups generalizing a with
+  | nil => rfl
+  | cons u us ih =>
+    show (arrUpdates (arrUpdate a u.1 u.2) us).length = a.length
+    rw [ih]; simp [arrUpdate]
+
+theorem finv_updates {t a : List Int} (hI : FInv t a) (ups : List (Nat × Int))
+    (hups : ∀ u ∈ ups, u.1 < a.length) : FInv (fenUpdates t ups) (arrUpdates a ups) := by
+  induction ups generalizing t a with
+  | nil => exact hI
+  | cons u us ih =>
+    show FInv (fenUpdates (fenUpdate t u.1 u.2) us) (arrUpdates (arrUpdate a u.1 u.2) us)
+    apply ih (update_correct hI u.1 u.2 (hups u List.mem_cons_self))
+    intro v hv
+    have : (arrUpdate a u.1 u.2).length = a.length := by simp [arrUpdate]
+    rw [this]; exact hups v (List.mem_cons_of_mem _ hv)
+
+/-- **C20 (FenwickTree), history independence.**  After any history of in-range point updates the
+internal tree is *the same list* as the one the O(n) constructor builds from the updated plain
+array: the state, not only the answers, is a function of the reference array.  Hence two update
+histories with the same net effect (reordered, split, cancelled) leave identical trees. -/
+theorem fenwick_updates_eq_rebuild (vals : List Int) (ups : List (Nat × Int))
+    (hups : ∀ u ∈ ups, u.1 < vals.length) :
+    fenUpdates (fenBuild vals) ups = fenBuild (arrUpdates vals ups) :=
+  finv_canonical (finv_updates (build_correct vals) ups hups) (build_correct _)
+
+theorem fenwick_history_independent (vals : List Int) (ups ups2 : List (Nat × Int))
+    (h1 : ∀ u ∈ ups, u.1 < vals.length) (h2 : ∀ u ∈ ups2, u.1 < vals.length)
+    (hnet : arrUpdates vals ups = arrUpdates vals ups2) :
+    fenUpdates (fenBuild vals) ups = fenUpdates (fenBuild vals) ups2 := by
+  rw [fenwick_updates_eq_rebuild vals ups h1, fenwick_updates_eq_rebuild vals ups2 h2, hnet]
+
+example : fenUpdates (fenBuild [1, 2, 3, 4, 5]) [(1, 10), (4, -7), (1, -3)]
+    = fenBuild [1, 9, 3, 4, -2] := by decide
+example : arrUpdates [1, 2, 3, 4, 5] [(1, 10), (4, -7), (1, -3)] = [1, 9, 3, 4, -2] := by decide
+
 /-! Non-vacuity: a history with interleaved updates and queries on the docstring's tree. -/
 example : fenRun (fenBuild [1, 2, 3, 4, 5]) [.pre 2, .update 1 10, .pre 2, .range 1 3, .update 4 (-7), .pre 4]
     = [6, 16, 19, 18] := by decide
